@@ -2,3 +2,6 @@ pub mod refbits;
 pub mod report;
 pub mod subject;
 pub mod shard;
+pub mod refper;
+pub mod schema;
+pub mod sweep;
